@@ -125,16 +125,7 @@ func checkC17(r *Run) {
 		ShapeCase{"ok(cipher/bip32.PrivateKey.NewPrivateChildKey(" + acct + "#0, $2))", "cipher.NewSecKey(cipher/bip32.PrivateKey.NewPrivateChildKey(" + acct + "#0, $2)#0.key.Key)#0"},
 		ShapeCase{"", "zero"})
 	ruleBip44SecretCoordinates(r, "C17-R2")
-	// the entry validity predicates that guard loading and AddEntry: an entry verifies only if its public key is
-	// the key of its secret, the key is valid, and the address is the address of that public key
-	r.RequireOnSuccess("C17-R2", "wallet.Entry.Verify",
-		req("public key derives from the secret key", "cipher.PubKeyFromSecKey($0.Secret)#0 == $0.Public"),
-		req("public key and address verified", "ok(wallet.Entry.VerifyPublic($0))"))
-	r.RequireOnSuccess("C17-R2", "wallet.Entry.VerifyPublic",
-		req("public key valid", "ok(cipher.PubKey.Verify($0.Public))"),
-		req("address belongs to the public key", "ok(iface:cipher.Addresser.Verify($0.Address, $0.Public))"))
-	r.RequireOnSuccess("C17-R2", "cipher.Address.Verify",
-		req("version 0", "$0.Version == 0"), req("address key is the hash of the public key", "$0.Key == cipher.PubKeyRipemd160($1)"))
+	ruleEntryVerify(r, "C17-R2")
 	// xpub entries
 	const xg = "wallet/xpubwallet.Wallet.generateEntries"
 	if fn := r.fn("C17-R2", xg); fn != nil {
